@@ -37,9 +37,6 @@ func init() {
 
 var forbiddenPkgs = map[string]bool{"unsafe": true, "syscall": true, "os/exec": true}
 
-// c13FixFi: the function holding the overrides (fixStdlib), for the guards of each override.
-var c13FixFi *FuncInfo
-
 func runC13(c *Config, r *Report) {
 	ic, err := loadInterp(c, true)
 	if err != nil {
@@ -52,7 +49,7 @@ func runC13(c *Config, r *Report) {
 		return
 	}
 	fixFi, ovs := fixStdlibOverrides(ic, r)
-	c13FixFi = fixFi
+	ic.FixFi = fixFi
 	if ovs == nil {
 		return
 	}
@@ -824,7 +821,7 @@ func c13Std(c *Config, ic *IC, r *Report, stdlibPk *packages.Package, tb map[str
 			// the override is installed whatever the streams are: no condition on the way mentions
 			// the interpreter's streams or arguments (directly, through a local copy, or through
 			// the result of a type assertion on them made in the if's init statement)
-			if fixFi := c13FixFi; fixFi != nil {
+			if fixFi := ic.FixFi; fixFi != nil {
 				streamFld := map[*types.Var]bool{}
 				for _, fn := range []string{"stdin", "stdout", "stderr", "args"} {
 					if v := ic.field("opt", fn); v != nil {
